@@ -39,6 +39,8 @@ const (
 	rdError
 	rdSlow    // answers after a virtual delay shorter than the lookup timeout
 	rdTooSlow // exceeds the 5 s lookup timeout
+	rdFlakyOK // the first query answers at once, every concurrent duplicate query fails later (the failure finishes last)
+	rdFlakyKO // the first query fails at once, a duplicate query answers later
 )
 
 func runC18Enrich(c *fw.Ctx, id string) {
@@ -49,11 +51,27 @@ func runC18Enrich(c *fw.Ctx, id string) {
 	beh := map[string]rdnsBehaviour{}
 	delay := map[string]time.Duration{}
 	for _, a := range pool {
-		beh[a] = rdnsBehaviour(r.Intn(5))
+		beh[a] = rdnsBehaviour(r.Intn(7))
 		delay[a] = time.Duration(1+r.Intn(900)) * time.Millisecond
 	}
+	var qmu sync.Mutex
+	nq := map[string]int{}
 	rs := installResolver(func(addr string) ([]string, error, time.Duration) {
+		qmu.Lock()
+		nq[addr]++
+		k := nq[addr]
+		qmu.Unlock()
 		switch beh[addr] {
+		case rdFlakyOK:
+			if k == 1 {
+				return namesFor(addr), nil, time.Millisecond
+			}
+			return nil, errResolver, 300 * time.Millisecond
+		case rdFlakyKO:
+			if k == 1 {
+				return nil, errResolver, time.Millisecond
+			}
+			return namesFor(addr), nil, 300 * time.Millisecond
 		case rdNames:
 			return namesFor(addr), nil, delay[addr] / 100
 		case rdEmpty:
@@ -66,6 +84,9 @@ func runC18Enrich(c *fw.Ctx, id string) {
 		return namesFor(addr), nil, 6 * time.Second
 	})
 	defer rs.restore()
+	occurrences := map[string]int{}
+	encodings := map[string]int{}
+	unknownNames := []string{"<either>"} // which of two racing lookups (one failing) fills which encoding is not decided
 	mkIP := func() net.IP {
 		a := pool[r.Intn(len(pool))]
 		ip := net.ParseIP(a)
@@ -90,6 +111,24 @@ func runC18Enrich(c *fw.Ctx, id string) {
 		d.Traceroute.Runs = append(d.Traceroute.Runs, run)
 	}
 	d.E2eProbe.RTTs = []float64{1, 0, 2}
+	encSeen := map[string]map[int]bool{}
+	note := func(ip net.IP) {
+		if len(ip) == 0 {
+			return
+		}
+		occurrences[ip.String()]++
+		if encSeen[ip.String()] == nil {
+			encSeen[ip.String()] = map[int]bool{}
+		}
+		encSeen[ip.String()][len(ip)] = true
+		encodings[ip.String()] = len(encSeen[ip.String()])
+	}
+	for _, run := range d.Traceroute.Runs {
+		note(run.Destination.IPAddress)
+		for _, h := range run.Hops {
+			note(h.IPAddress)
+		}
+	}
 	before := cloneDoc(d)
 	d.EnrichWithReverseDns()
 	expect := func(ip net.IP) []string {
@@ -99,6 +138,23 @@ func runC18Enrich(c *fw.Ctx, id string) {
 		switch beh[ip.String()] {
 		case rdNames, rdSlow:
 			return namesFor(ip.String())
+		case rdFlakyOK:
+			// one of the concurrent lookups of this address succeeded: a failed duplicate must not erase its names.
+			// With two encodings of the address the result map has two keys and which of them the successful
+			// lookup fills depends on which goroutine queried first: not decided.
+			if encodings[ip.String()] == 1 {
+				return namesFor(ip.String())
+			}
+			return unknownNames
+		case rdFlakyKO:
+			// the first query fails at once; a successful one only exists when the address is looked up again
+			if occurrences[ip.String()] < 2 {
+				return nil
+			}
+			if encodings[ip.String()] == 1 {
+				return namesFor(ip.String())
+			}
+			return unknownNames
 		}
 		return nil
 	}
@@ -107,11 +163,14 @@ func runC18Enrich(c *fw.Ctx, id string) {
 	}
 	for i := range d.Traceroute.Runs {
 		run, orig := &d.Traceroute.Runs[i], &before.Traceroute.Runs[i]
-		if got, want := fmt.Sprint(run.Destination.ReverseDns), fmt.Sprint(expect(run.Destination.IPAddress)); got != want && !(got == "[]" && want == "[]") {
+		if got, want := fmt.Sprint(run.Destination.ReverseDns), fmt.Sprint(expect(run.Destination.IPAddress)); got != want && !(got == "[]" && want == "[]") && want != "[<either>]" {
 			c.Violate("C18", "dest-names/"+behName(beh[run.Destination.IPAddress.String()]), fmt.Sprintf("%s: destination %s has names %v, resolver script says %v", id, run.Destination.IPAddress, run.Destination.ReverseDns, expect(run.Destination.IPAddress)), detail())
 		}
 		for j, h := range run.Hops {
 			want := expect(h.IPAddress)
+			if len(want) == 1 && want[0] == "<either>" {
+				continue
+			}
 			if len(h.ReverseDns) != len(want) || (len(want) > 0 && h.ReverseDns[0] != want[0]) {
 				kind := "empty-hop"
 				if len(h.IPAddress) > 0 {
@@ -139,7 +198,7 @@ func runC18Enrich(c *fw.Ctx, id string) {
 }
 
 func behName(b rdnsBehaviour) string {
-	return [...]string{"names", "empty", "error", "slow", "too-slow"}[b]
+	return [...]string{"names", "empty", "error", "slow", "too-slow", "flaky-ok-then-fail", "flaky-fail-then-ok"}[b]
 }
 
 func fmtDocNames(d *result.Results) []string {
